@@ -139,3 +139,19 @@ def install_lemmas(w, prog, roles, lemmas: Dict[str, str]) -> None:
         return None
 
     I.hooks["arith-result"] = hook
+
+    # ---- A-W: the variance corrections W, W~ lie in [0, 1] (numeric fact about the correction functions, C17; its
+    # static necessary condition R17.1 is a premise checked by the rules that use it)
+    common = f"{prog.package}.models.weng_lin.common"
+
+    def call_result(I, fv, args, rv, node):
+        fi = fv.fi
+        if fi is None or fi.module.name != common or fi.name not in ("w", "wt") or not isinstance(rv, Num) or rv.rng is None:
+            return None
+        if len(I.stack) < 1 or "_compute" not in I.cur_func():
+            return None
+        lemmas["A-W"] = ("assumption A-W: the variance corrections w and wt lie in [0, 1] (numeric fact not provable by intervals: v*(v + x - t) has no interval sign); "
+                         "premise R17.1 (non-cancelling CDF) is checked")
+        return replace(rv, rng=rv.rng.meet(Interval(0.0, 1.0, False, False)))
+
+    I.hooks["call-result"] = call_result
